@@ -1181,6 +1181,7 @@ pub fn drive_sync(
     grace_ms: u64,
     count: bool,
     auto_release: bool,
+    hold_until_end: &[i64],
 ) {
     let body = move || {
         log(json!({"ev":"begin"}));
@@ -1200,14 +1201,23 @@ pub fn drive_sync(
     if auto_release {
         // free-running mode (panic plans: detached threads make arrival sets racy): release every
         // gate as soon as a thread is parked at it; the trace specification alone is the judge
+        // `hold_until_end`: gates of siblings that stay closed until the caller has its result (a panic must
+        // surface while they are parked); if the caller does not get it within `long` that is logged as `stuck`
+        let t0 = Instant::now();
+        let mut held: Vec<i64> = hold_until_end.to_vec();
         loop {
-            let parked = arrived_unreleased();
+            let parked: Vec<i64> = arrived_unreleased().into_iter().filter(|g| !held.contains(g)).collect();
             if let Some(g) = parked.first() {
                 release(*g);
                 continue;
             }
             if wait_finished(Duration::from_millis(2)) {
                 break;
+            }
+            if !held.is_empty() && t0.elapsed() > long {
+                let at: Vec<i64> = arrived_unreleased();
+                log(json!({"ev":"stuck","held":held,"arrived":at,"what":"the caller did not get its result while these gates stayed closed"}));
+                held.clear();
             }
         }
         // threads detached by a panic may still run: let them reach their gates and finish their step
@@ -1573,7 +1583,8 @@ pub fn main_loop(table: &[(&str, Prog)]) {
         let auto = r["auto"].as_bool().unwrap_or(true);
         let count = r["count"].as_bool().unwrap_or(false);
         match prog {
-            Prog::Sync(f) => drive_sync(*f, named, &sched, grace, count, r["auto_release"].as_bool().unwrap_or(false)),
+            Prog::Sync(f) => drive_sync(*f, named, &sched, grace, count, r["auto_release"].as_bool().unwrap_or(false),
+                                        &get_i64s(&r["hold_until_end"])),
             Prog::Async(f) => drive_async(*f, &sched, auto),
             Prog::Tasks(f) => drive_tasks(*f, &sched, auto),
         }
